@@ -18,6 +18,7 @@ func (s SliceSpec) CR() discovery.EndpointSlice {
 		}
 		ep.Conditions.Ready = e.Ready.Ptr()
 		ep.Conditions.Serving = e.Serving.Ptr()
+		ep.Conditions.Terminating = e.Term.Ptr()
 		cr.Endpoints = append(cr.Endpoints, ep)
 	}
 	return cr
@@ -42,7 +43,8 @@ func GenSlices(rt *rapid.T, ns, svc string, nodes []string, maxSlices, maxEps in
 	for i, n := 0, rapid.IntRange(0, maxSlices).Draw(rt, "nslices"); i < n; i++ {
 		s := SliceSpec{Name: fmt.Sprintf("%s-slice%d", svc, i), NS: ns, Svc: svc}
 		for j, m := 0, rapid.IntRange(0, maxEps).Draw(rt, "neps"); j < m; j++ {
-			e := EndpointSpec{Ready: Tri(rapid.SampledFrom([]int{0, 1, 1, 1, 2}).Draw(rt, "ready")), Serving: Tri(rapid.SampledFrom([]int{0, 0, 1, 2}).Draw(rt, "serving"))}
+			e := EndpointSpec{Ready: Tri(rapid.SampledFrom([]int{0, 1, 1, 1, 2}).Draw(rt, "ready")), Serving: Tri(rapid.SampledFrom([]int{0, 0, 1, 2}).Draw(rt, "serving")),
+				Term: Tri(rapid.SampledFrom([]int{0, 0, 0, 1, 2}).Draw(rt, "terminating"))}
 			a := rapid.SampledFrom(addrs).Draw(rt, "epaddr")
 			e.Addrs = []string{a}
 			if rapid.IntRange(0, 9).Draw(rt, "twoaddr") == 0 {
